@@ -115,12 +115,17 @@ class Universe:
             self.list_of(op[3]).parent = T(op[2])
         elif k == 'wbsRemove':
             self.wbs[op[1] - self.m].remove(T(op[2]))
-        elif k == 'wbsRemoveAll':
+        elif k in ('wbsRemoveAll', 'chRemoveAll'):
+            # three ways of saying which tasks go: a callable, keyword filters (names are unique), or no filter at all (= every element)
+            tgt = self.wbs[op[1] - self.m] if k == 'wbsRemoveAll' else self.holder_list(op[1])
+            how = op[4] if len(op) > 4 else 'lambda'
             chosen = set(id(T(u)) for u in op[3])
-            self.wbs[op[1] - self.m].remove_all(lambda t: id(t) in chosen)
-        elif k == 'chRemoveAll':
-            chosen = set(id(T(u)) for u in op[3])
-            self.holder_list(op[1]).remove_all(lambda t: id(t) in chosen)
+            if how == 'empty':
+                tgt.remove_all()
+            elif how == 'kw':
+                tgt.remove_all(name_in_=[T(u).name for u in op[3]])
+            else:
+                tgt.remove_all(lambda t: id(t) in chosen)
         elif k == 'badArg':
             # a malformed argument (None / a non-task where a task is required): must be refused without touching anything
             which, h = op[1], op[2]
@@ -159,12 +164,12 @@ class Universe:
         k = op[0]
         if k in ('listLshift', 'listRshift', 'listSetParent'):
             op[1] = [self.u(t) for t in self.list_of(op[3])]
-        elif k == 'wbsRemoveAll':
+        elif k in ('wbsRemoveAll', 'chRemoveAll'):
+            elems = self.wbs[op[1] - self.m].tasks if k == 'wbsRemoveAll' else self.holder_list(op[1])
+            if len(op) > 4 and op[4] == 'empty':
+                op[3] = sorted(self.u(t) for t in elems)
             chosen = set(op[3])
-            op[2] = [self.u(t) for t in self.wbs[op[1] - self.m].tasks if self.u(t) in chosen]
-        elif k == 'chRemoveAll':
-            chosen = set(op[3])
-            op[2] = [self.u(t) for t in self.holder_list(op[1]) if self.u(t) in chosen]
+            op[2] = [self.u(t) for t in elems if self.u(t) in chosen]
         elif k == 'chSort':
             key = op[4]
             if isinstance(key, list):
@@ -311,9 +316,9 @@ def rand_op(u, rnd):
         mem = [u.u(t) for t in u.wbs[w - m].tasks]
         return ['wbsRemove', w, rnd.choice(mem) if mem and rnd.random() < 0.7 else rt()]
     if k == 19:
-        return ['wbsRemoveAll', rnd.choice(roots), None, sorted(set(rl(3)))]
+        return ['wbsRemoveAll', rnd.choice(roots), None, sorted(set(rl(3))), rnd.choice(['lambda', 'lambda', 'kw', 'empty'])]
     if k == 20:
-        return ['chRemoveAll', holder(), None, sorted(set(rl(3)))]
+        return ['chRemoveAll', holder(), None, sorted(set(rl(3))), rnd.choice(['lambda', 'kw', 'empty', 'empty'])]
     src = ['tasks', rnd.choice(roots)] if rnd.random() < 0.4 else ['children', holder()]
     single = rnd.random() < 0.5
     if k == 21 and rnd.random() < 0.4:
@@ -596,7 +601,7 @@ def random_case(prop, rng, tier):
 
 def execute(prop, case):
     u = new_universe(case)
-    pool = sorted(set(case['ids']))[:8] + [97, -1]
+    pool = sorted(set(case['ids']))[:8] + [97, -1, sys.maxsize]     # (sys.maxsize: the id the hidden root of a WBS carries - not a member)
     steps = []
     for op in case['ops']:
         op = u.concretise(op)
@@ -660,11 +665,15 @@ def all_ops(m, nw, ids):
             ops.append(['floordiv', h, l, len(l) == 1])
         for sub in ([], [0], [m - 1], T[:2], T):
             ops.append(['chRemoveAll', h, None, sorted(set(sub))])
+        ops.append(['chRemoveAll', h, None, [], 'empty'])
+        ops.append(['chRemoveAll', h, None, T[:2], 'kw'])
     for w in R:
         for t in T:
             ops.append(['wbsRemove', w, t])
         for sub in ([], [0], [m - 1], T[:2], T):
             ops.append(['wbsRemoveAll', w, None, sorted(set(sub))])
+        ops.append(['wbsRemoveAll', w, None, [], 'empty'])
+        ops.append(['wbsRemoveAll', w, None, T[:2], 'kw'])
     srcs = [['tasks', w] for w in R] + [['children', h] for h in H]
     for src in srcs:
         for l in lists2[1:]:
